@@ -33,7 +33,7 @@ theorem step_nonloop_frame {c : Cfg} (hw : c.wiring = Wiring.std) {s s' : State}
   | workerPost w => obtain ⟨_, _, _, _, rfl⟩ := inv_workerPost hs; rfl
   | workerDiePost w => obtain ⟨_, _, _, rfl⟩ := inv_workerDiePost hw hs; rfl
   | workerExit w => obtain ⟨_, _, rfl⟩ := inv_workerExit hs; rfl
-  | cancel => obtain ⟨_, rfl⟩ := inv_cancel hs; rfl
+  | cancel => obtain ⟨_, _, rfl⟩ := inv_cancel hs; rfl
 
 /-- The loop never modifies a worker slot except by handing a job to an idle worker. -/
 theorem step_loop_ws {c : Cfg} (hw : c.wiring = Wiring.std) {s s' : State} {a : Act}
@@ -154,17 +154,17 @@ theorem inv9_step {c : Cfg} (hw : c.wiring = Wiring.std) (hwf : WfCfg c) {s s' :
     rcases hc with ⟨_, rfl⟩ | ⟨_, _, rfl⟩ | ⟨_, _, rfl⟩ <;> exact frame [_] rfl (by simp [Ev.isOwn]) (fun _ h => h)
   | workerEnd w o cancel =>
     obtain ⟨j, _, rfl⟩ := inv_workerEnd hs
-    have hab : (afterBody s j o cancel).loop = s.loop ∧
-        ∃ es, (afterBody s j o cancel).log = s.log ++ es ∧ ∀ e ∈ es, e.isOwn = false := by
+    have hab : (afterBody c s j o cancel).loop = s.loop ∧
+        ∃ es, (afterBody c s j o cancel).log = s.log ++ es ∧ ∀ e ∈ es, e.isOwn = false := by
       unfold afterBody; split
-      · exact ⟨rfl, [Ev.ended j o, Ev.cancelled], by simp, by simp [Ev.isOwn]⟩
+      · exact ⟨rfl, [Ev.ended j o, Ev.cancelled (c.ctxOfJob j)], by simp, by simp [Ev.isOwn]⟩
       · exact ⟨rfl, [Ev.ended j o], by simp, by simp [Ev.isOwn]⟩
     obtain ⟨hl, es, hlog, hes⟩ := hab
     exact frame es (by simp [hlog]) hes (by intro k hk; simpa [hl] using hk)
   | workerPost w => obtain ⟨_, _, _, _, rfl⟩ := inv_workerPost hs; exact frame [] (by simp) (by simp) (fun _ h => h)
   | workerDiePost w => obtain ⟨_, _, _, rfl⟩ := inv_workerDiePost hw hs; exact frame [] (by simp) (by simp) (fun _ h => h)
   | workerExit w => obtain ⟨_, _, rfl⟩ := inv_workerExit hs; exact frame [] (by simp) (by simp) (fun _ h => h)
-  | cancel => obtain ⟨_, rfl⟩ := inv_cancel hs; exact frame [_] rfl (by simp [Ev.isOwn]) (fun _ h => h)
+  | cancel => obtain ⟨_, _, rfl⟩ := inv_cancel hs; exact frame [_] rfl (by simp [Ev.isOwn]) (fun _ h => h)
   | loopEnq =>
     obtain ⟨j, rest, hp, _, he, rfl⟩ := inv_loopEnq hs
     have hf := R.i1.fifo hp
